@@ -263,6 +263,21 @@ def run(tier, seed, replay=None):
     for i in range(n):
         A, b, N, kind = gen_system(rng, torch, torchtt, N={10: [5, 4], 14: [6, 7, 5]}.get(i))          # (cases 10, 14: small modes, every local problem is solved directly)
         eps = rng.choice([1e-10, 1e-8, 1e-6, 1e-4, 1e-3])
+        pure_lap = i in (18, 22)
+        if pure_lap:
+            # engineered: the UNSHIFTED discrete Laplacian (h^-2 scaling) of order 3 / 4 with a smooth right-hand side whose solution is not exactly low rank: the norm
+            # corrections of the sweep (nrmsc) are of order 1e-2 .. 1e-3 here - a residual test normalised with the wrong one of them is off by that factor
+            N = [12, 12, 12] if i == 18 else [6, 8, 10, 12]; kind = "laplace-unshifted"
+            A = None
+            for k_ in range(len(N)):
+                cs_ = [torch.eye(n_, dtype=torch.float64).reshape(1, n_, n_, 1) for n_ in N]
+                L_ = (2 * torch.eye(N[k_], dtype=torch.float64) - torch.diag(torch.ones(N[k_] - 1, dtype=torch.float64), 1) - torch.diag(torch.ones(N[k_] - 1, dtype=torch.float64), -1)) * (N[k_] + 1) ** 2
+                cs_[k_] = L_.reshape(1, N[k_], N[k_], 1); T_ = torchtt.TT(cs_); A = T_ if A is None else A + T_
+            A = A.round(1e-14)
+            gr_ = [torch.linspace(0, 1, n_ + 2, dtype=torch.float64)[1:-1] for n_ in N]
+            r1_ = lambda f_: torchtt.TT([f_(g_).reshape(1, -1, 1) for g_ in gr_])
+            b = r1_(lambda g_: torch.sin(math.pi * g_)) + 0.5 * r1_(lambda g_: torch.exp(-g_)) + 0.3 * r1_(lambda g_: 1 + g_ ** 2)
+            eps = 1e-8
         prec = rng.choice([None, None, "c", "r"])
         max_full = rng.choice([0, 500])
         local = rng.choice(["gmres", "bicgstab"]) if max_full == 0 else None
@@ -271,12 +286,13 @@ def run(tier, seed, replay=None):
         band = None
         if kind == "laplace" and max_full == 0 and (rng.random() < 0.6 or i % 7 == 3):      # the documented band_diagonal option (the cores of this family are tridiagonal)
             band = rng.choice([1, 2])
-        zero_sum = rng.random() < 0.15 or i in (2, 6, 10, 14)
+        zero_sum = (rng.random() < 0.15 or i in (2, 6, 10, 14)) and not pure_lap
         if zero_sum:                          # a right-hand side whose last core sums to zero along its mode: the projection on the default (all-ones) guess vanishes exactly
             cs_ = [c.clone() for c in b.cores]; cs_[-1] = torch.zeros_like(cs_[-1])
             for p_ in range(cs_[-1].shape[0]): cs_[-1][p_, 0, 0] = float(p_ + 1); cs_[-1][p_, 1, 0] = -float(p_ + 1)
             b = torchtt.TT(cs_)
         gk = rng.choice(["none", "none", "none", "random", "random", "zeros", "0*b", "b", "random*1e6", "random*1e-9", "zero-core", "loose-solution", "loose-solution"])
+        if pure_lap: gk = "none"; prec = None; max_full = 500; local = None; band = None; zero_sum = False
         if i in (2, 6):                       # engineered: zero-sum right-hand side, default start, iterative local solves (the local right-hand side of the first core vanishes: tolerance 0)
             gk = "none"; max_full = 0; local = "bicgstab" if i == 2 else "gmres"; prec = None; band = None
         if i in (10, 14):                     # ... and with the direct local solve (an interface of the right-hand side vanishes exactly: its norm must not be divided by), without / with preconditioner
